@@ -701,6 +701,19 @@ class HandleStateUpdates(FnCheck):
             ex.oblige(st, 'never_raises', z3.BoolVal(False), info={'exc': repr(outcome[1])})
 
 
+def _shallow_copy_summary():
+    """copy.copy(x): a new object whose members are the SAME objects as those of x (nested values stay shared). It is not
+    recorded as the private copy the write_entity contracts ask for."""
+    def shallow(ex_, st, args, kwargs):
+        src = ex_.concrete_kind(st, args[0], ('ref',))
+        c = st.alloc('ShallowCopy')
+        for f in ('StateVersion', 'DescriptorVersion', 'DescriptorHandle', 'Handle'):
+            st.set_arr('f:' + f, z3.Store(st.get_arr('f:' + f), c.e, z3.Select(st.get_arr('f:' + f), src.e)))
+        st.ghost['c:shallow'] = (c.e, st.box(args[0]))
+        return c
+    return Pure(shallow, name='copy.copy (shallow: nested values stay shared)')
+
+
 @register
 class WriteEntity(FnCheck):
     id = 'C02.write_entity'
@@ -766,6 +779,7 @@ class WriteEntity(FnCheck):
             return o
         return {'*.get_one': Pure(get_one, name='index get_one (C11): stored state / descriptor of the handle'),
                 'copy.deepcopy': Pure(deep, name='copy.deepcopy', trusted=True),
+                'copy.copy': _shallow_copy_summary(),
                 '*.set_version': Pure(set_version, name='table.set_version (C02.set_version)'),
                 f'{TR}:TransactionItem': Pure(item, name='TransactionItem(old, new)'),
                 'TransactionItem': Pure(item, name='TransactionItem(old, new)'),
@@ -1076,6 +1090,7 @@ class ContextWriteEntity(FnCheck):
         return {'*.get': Pure(states_get, name='entity.states.get(handle)'),
                 '*.get_one': Pure(get_one, name='index get_one (C11)'),
                 'copy.deepcopy': Pure(deep, name='copy.deepcopy', trusted=True),
+                'copy.copy': _shallow_copy_summary(),
                 '*.set_version': Pure(set_version, name='context_states.set_version (C02.set_version)'),
                 'sdc11073.mdib.transactionsprotocol:TransactionItem': Pure(item, name='TransactionItem(old, new)'),
                 f'{TR}:TransactionItem': Pure(item, name='TransactionItem(old, new)'),
